@@ -10,10 +10,10 @@ Local Open Scope Z_scope.
 Ltac Zify.zify_post_hook ::= Z.div_mod_to_equations.
 
 Lemma c_verify_field_eq b addr d id required size align :
-  in_u16 id -> in_s32 required -> in_u32 size -> pow2_16 align -> td_range d -> wf_buf b ->
+  id_ok id -> in_s32 required -> in_u32 size -> pow2_16 align -> td_inv d -> wf_buf b ->
   vres_of (c_verify_field (td_of b addr d) id required size align) = verify_field b addr d id (negb (required =? 0)) size align.
 Proof.
-  unfold td_range, in_s32. intros Hi Hr Hs Ha Hd Hwf.
+  unfold in_s32. intros Hi Hr Hs Ha Hd Hwf.
   unfold c_verify_field, verify_field, c_read_vt_entry, read_vt_entry, td_of, ptr_of, r16, s32, u64, u32, u16.
   cbn [td_vsize td_vtable td_buf td_table td_tsize p_rd16 p_addr].
   leaf_auto.
